@@ -740,8 +740,7 @@ def run(ck):
         "differential comparison only; the clause level is modelled (Serde/Clause.v, ClauseParse.v) for head, atoms, negated atoms, "
         "(in)equalities, comparison atoms and transforms; temporal annotations / operators are not modelled in Coq - they are covered by "
         "the Go round trip (c) alone",
-        "parse_print_clause_partial excludes a body without transform that ends in an (in)equality with a compound constant on the right "
-        "(pair, non-empty list / map / struct); such clauses are inside the model and the correspondence check",
+        "parse_print_clause_partial covers every clause of the model's clause type; `_partial` = temporal syntax is not in the model",
         "clause texts are compared through parse.Unit (end of input required); parse.Clause stops after the final '.' - both read the same "
         "clause from every accepted text (checked, Go against Go)",
         "strconv.FormatFloat/ParseFloat, time.Format/Parse(RFC3339), time.Duration.String/ParseDuration enter the model as per-case tables "
@@ -778,8 +777,8 @@ META = {
             "a body of atoms, negated atoms, equalities, inequalities and comparison atoms over such constants, variables and function "
             "applications of any nesting, with let / do transforms of any number of stages, the text Clause.String writes (with the ' .' after a "
             "trailing name constant), followed by nothing or a character that cannot continue a name, parses back with that fuel to a clause "
-            "of the same shape whose constants evaluate to the printed ones; excluded: a body without transform ending in an (in)equality "
-            "with a compound constant on the right, and temporal annotations / operators (not modelled). Refutation theorems for the pre-fix "
+            "of the same shape whose constants evaluate to the printed ones; excluded: temporal annotations / operators (not modelled in "
+            "Coq, covered by the Go round trip). Refutation theorems for the pre-fix "
             "printers (chained transform dropped, trailing name constant). The model is tied to "
             "the code on every run: printer, lexer + parser (also on mutated near-miss texts: accept / reject and tree), escape and unescape, "
             "and the clause printer / clause parser (printed clauses, clause near misses and mutants through parse.Unit) "
